@@ -450,6 +450,9 @@ func checkPayload(res *CaseResult, which string, fail func(prop, rule, msg strin
 		if got == "" {
 			fail("C05", "payload-error", "post join point received no error although the callee halted exceptionally", where)
 		}
+		if len(ret) != 0 {
+			fail("C05", "payload-ret", fmt.Sprintf("post join point received return data %x for a callee that halted exceptionally (it returned nothing)", clipB(ret)), where)
+		}
 	}
 }
 
@@ -684,6 +687,47 @@ func jpWorkload(c Case, which string, res *CaseResult) {
 	}
 	if ok7 {
 		check(jpRun{fs: fs7, m: m7, sh: buildShadow(fs7.L, fs7.Rules.IsEIP150)}, "toggle-between-calls", jpCheckOpts{plan: plan})
+	}
+	// 8. a callee that ends with EXACTLY zero gas left (and with 1, 2): the post join point still fires once
+	{
+		callee := h.NewAsm().PushU(uint64(1 + c.Seed%7)).PushU(0).Op(h.MSTORE)
+		if c.Seed%2 == 0 {
+			callee.PushU(32).PushU(0).Op(h.RETURN)
+		} else {
+			callee.Op(h.STOP)
+		}
+		mk := func(g uint64) *scenario {
+			caller := h.NewAsm().PushU(1).PushU(0).Op(h.MSTORE8)
+			caller.PushU(32).PushU(0x40).PushU(1).PushU(0).PushU(0).PushAddr(h.ContractAddr(1)).PushU(g).Op(h.CALL).PushU(1).Op(h.SSTORE, h.STOP)
+			w := h.BaseWorld([][]byte{caller.Bytes(), callee.Bytes()})
+			return &scenario{Fork: sc.Fork, NContract: 2, World: w, Tx: h.TxSpec{Entry: h.ECall, From: h.Sender, To: h.ContractAddr(0), Input: []byte{9}, Gas: 500000, Value: new(big.Int)}}
+		}
+		probe := runJP(mk(100000), none, true, nil)
+		var used uint64
+		if probe.ir.Panic == "" {
+			roots, _ := probe.m.frames(probe.sh)
+			if len(roots) == 1 && len(roots[0].children) == 1 {
+				ch := roots[0].children[0]
+				if g, _, _, ok := calleeEnd(ch); ok && ch.first != nil {
+					used = ch.first.Gas - g
+				}
+			}
+		}
+		if used > 0 {
+			pl := &h.AspectPlan{Pre: map[common.Address][]h.Binding{}, Post: map[common.Address][]h.Binding{}, FailAt: map[int]error{}}
+			var id common.Address
+			id[0], id[19] = 0xa5, 0x77
+			pl.Post[h.ContractAddr(1)] = []h.Binding{{AspectID: id, Loops: 0}}
+			for _, extra := range []uint64{0, 1, 2} {
+				pp := none
+				if extra > 0 {
+					pp = pl // (an Aspect needs gas of its own; with 0 left only the firing itself is asserted)
+				}
+				jr := runJP(mk(used+extra), pp, true, nil)
+				check(jr, fmt.Sprintf("exact-gas+%d", extra), jpCheckOpts{plan: pp})
+				res.Count("exact_gas_runs", 1)
+			}
+		}
 	}
 	res.Evals = evals
 	res.Set("forks", sc.Fork.String())
